@@ -165,7 +165,6 @@ impl Runtime {
         if let Err(error) = self.do_input(string) {
             self.clear();
             self.state = State::RuntimeError(error);
-            debug_assert!(false, "BAD INPUT STACK");
         }
     }
 
